@@ -88,6 +88,9 @@ class Gen:
             choices += ["iprop", "iget", "samefn", "iset"]
         if self.lists:
             choices += ["index", "forloop"]
+        choices += ["nest"]
+        if getattr(self, "makers", None):
+            choices += ["ncall", "ncall", "ncall"]
         k = rng.choice(choices)
         return getattr(self, "s_" + k)()
 
@@ -199,6 +202,44 @@ class Gen:
                         funs=[(h, ["p"])], script=["s:" + h, "g:print", "g:" + h, "g:" + o], calls=[h])
         return dict(text="fn %s(q) { return q.get(); } print(%s(%s));" % (h, h, o), decls=[h], refs=["print", h, o],
                     funs=[(h, ["i"])], script=["s:" + h, "g:print", "g:" + h, "g:" + o], calls=[h, k + ".get"])
+
+    def s_nest(self):
+        """a function (or method) whose body creates closures nested 2-3 levels deep that read (and
+        sometimes write) a module-level variable of an earlier entry"""
+        rng = self.rng
+        self.makers = getattr(self, "makers", [])
+        if not self.nums:
+            return self.s_let()
+        w = rng.choice(self.nums)
+        shape = rng.choice(["fn2", "fn2", "fn3", "method", "fn2w"])
+        k = rng.randint(1, 9)
+        if shape == "method":
+            c = self.fresh("N")
+            self.makers.append((c, "method", w, k))
+            return dict(text="class %s { m() { return |p| p * %d + %s; } }" % (c, k, w), decls=[c], refs=["Object", w],
+                        funs=[(c + ".m.l", ["g:" + w]), (c + ".m", [])], script=["s:" + c, "g:Object", "g:" + c], calls=[])
+        f = self.fresh("mk")
+        self.makers.append((f, shape, w, k))
+        if shape == "fn2":
+            return dict(text="fn %s() { return |p| p * %d + %s; }" % (f, k, w), decls=[f], refs=[w],
+                        funs=[(f + ".l", ["g:" + w]), (f, [])], script=["s:" + f], calls=[])
+        if shape == "fn2w":
+            return dict(text="fn %s() { return |p| { %s = %s + p; return %s * %d; }; }" % (f, w, w, w, k), decls=[f], refs=[w],
+                        funs=[(f + ".l", ["g:" + w, "s:" + w, "g:" + w]), (f, [])], script=["s:" + f], calls=[])
+        return dict(text="fn %s() { return || |p| p * %d + %s; }" % (f, k, w), decls=[f], refs=[w],
+                    funs=[(f + ".l2", ["g:" + w]), (f + ".l1", []), (f, [])], script=["s:" + f], calls=[])
+
+    def s_ncall(self):
+        f, shape, w, k = self.rng.choice(self.makers)
+        e, refs = self.expr()
+        if shape == "method":
+            return dict(text="print(%s().m()(%s));" % (f, e), decls=[], refs=["print", f] + refs, funs=[],
+                        script=["g:print", "g:" + f, "i"] + self.ops_get(refs), calls=[f + ".m", f + ".m.l"])
+        if shape == "fn3":
+            return dict(text="print(%s()()(%s));" % (f, e), decls=[], refs=["print", f] + refs, funs=[],
+                        script=["g:print", "g:" + f] + self.ops_get(refs), calls=[f, f + ".l1", f + ".l2"])
+        return dict(text="print(%s()(%s));" % (f, e), decls=[], refs=["print", f] + refs, funs=[],
+                    script=["g:print", "g:" + f] + self.ops_get(refs), calls=[f, f + ".l"])
 
     def s_list(self):
         l = self.fresh("l")
